@@ -280,7 +280,7 @@ def timeFieldsLoop : Nat → Int → List Field → Str → OpRes (List Field ×
 
 /-- `RewriteTimeFields`: the new `Fields` and `TimeAlias`. -/
 def rewriteTimeFields (fields : List Field) (timeAlias : Str) : OpRes (List Field × Str) :=
-  timeFieldsLoop (fields.length + 1) 0 fields timeAlias
+  timeFieldsLoop (fields.length + 2) 0 fields timeAlias
 
 /-! ## `sort.Interface` of `Fields` and `VarRefs`, `VarRefs.Strings` -/
 
